@@ -11,7 +11,8 @@ Obs == [op |-> op, cellOf |-> cellOf, occ |-> [c \in 1 .. NCells |-> occ[c - 1]]
         vetoCells |-> IF activeId # None THEN {<<c, occ[c]>> : c \in Cellz \ Nearby(activeCell)} ELSE {}]
 Finish == op' = [name |-> "finish"] /\ UNCHANGED <<cellOf, occ, surplus, hasKey, activeId, activeCell, started, moving>>
 SimInit == InitM /\ hist = <<>>
-SimNext == /\ IF TLCGet("level") >= Depth THEN Finish ELSE (Next \/ \E k \in 1 .. 2 : \E up \in BOOLEAN : Cross(up))
+SimNext == /\ op.name # "finish"          \* one Finish step ends the behaviour (and prints it once)
+           /\ IF TLCGet("level") >= Depth THEN Finish ELSE (Next \/ \E k \in 1 .. 2 : \E up \in BOOLEAN : Cross(up))
            /\ hist' = Append(hist, Obs')
 SimSpec == SimInit /\ [][SimNext]_<<vars, moving, hist>>
 Emit == op.name # "finish" \/ PrintT(<<"BEH", ToJson([init |-> hist[1].cellOf, steps |-> hist])>>)
